@@ -678,5 +678,111 @@ theorem pass_resync (E : TimedEnv P) (M : Rat) (tt : List T) (n : Nat) (g G : Ra
       by show E.clk _ ≤ A + E.L + E.C + (E.off _ - E.off w); linarith [c3.1, r4.1],
       by linarith [c3.1, r4.1], by linarith [c3.2, r4.2]⟩
 
+/-! ## every number of passes -/
+
+/-- the first `N` passes from `(L, w)`: each one ends – for every behaviour of the environment – in a state that
+    `Good` relates to the state it started in -/
+def allPasses (E : TimedEnv P) (M : Rat) (Good : MtLocals T DT → σ → MtLocals T DT → σ → Prop) :
+    Nat → MtLocals T DT → σ → Prop
+  | 0, _, _ => True
+  | N + 1, L, w => wp E M (fun L' w' => Good L w L' w' ∧ allPasses E M Good N L' w') (mtStep P L w)
+
+/-- the service bound without clock jumps: wake-up latency + two clock reads + one group of recalculations -/
+def lamServe (E : TimedEnv P) : Rat := 2 * E.L + E.W + E.C
+
+/-- the state of the loop between two passes (no clock problem flagged; overhead estimate at least `_TT_OK`):
+    a reload is pending, or the index is unknown, or the loop is positioned at entry `i` and heading for the
+    instant `A`, the clock being at most `L + W + C` past it -/
+def Ready (E : TimedEnv P) (g G : Rat) (L : MtLocals T DT) (w : σ) : Prop :=
+  L.v1 = false ∧ ttOk ≤ L.v0 ∧
+  (L.v2 = true
+   ∨ (L.v2 = false ∧ L.v6 = none ∧ TTok P L.v4 g G ∧ L.v4.length = L.v5)
+   ∨ (TTok P L.v4 g G ∧ L.v4.length = L.v5 ∧ ∃ i a A, ∃ kA : Int, i < L.v5 ∧
+        A = (kA : Rat) * secPerDay + todS P a ∧ KnownSt E L.v4 L.v5 i a A G (E.L + E.W + E.C) L w))
+
+/-- what every pass does when the clock does not jump: it was heading for an instant `A` of the timetable (entry
+    `idx`) at most `G` after its first reading and either SERVED it with a reading in `[A, A + lamServe]` –
+    recalculating exactly the blocks registered for that time of day – or was cut short by a reload request;
+    it never ends in a reset -/
+def GoodPass (E : TimedEnv P) (G : Rat) (L : MtLocals T DT) (w : σ) (L' : MtLocals T DT) (w' : σ) : Prop :=
+  ∃ idx a A m, PassOutcome E L'.v4 L'.v5 idx a A G (E.off w) (A + lamServe E) m L' w' ∧ L'.v6 ≠ none
+
+theorem KnownSt.mono {E : TimedEnv P} {tt : List T} {n i : Nat} {a : T} {A G lat lat' : Rat}
+    {L : MtLocals T DT} {w : σ} (h : KnownSt E tt n i a A G lat L w) (hl : lat ≤ lat') :
+    KnownSt E tt n i a A G lat' L w :=
+  ⟨h.h1, h.h2, h.h4, h.h5, h.h6, h.hget, h.hov, h.hglo, h.hnow, by linarith [h.hlate]⟩
+
+/-- from the outcome of a pass (no jumps, `lamServe ≤ _TT_ERROR`, alarms at least `L + C` apart) to the state
+    before the next one -/
+theorem ready_of_outcome (E : TimedEnv P) (g G : Rat) (tt : List T) (n idx : Nat) (a : T) (A m : Rat) (kA : Int)
+    (w0 : σ) (L' : MtLocals T DT) (w' : σ) (hJ0 : E.J = 0) (hlam : lamServe E ≤ ttError) (hg : E.L + E.C ≤ g)
+    (ok : TTok P tt g G) (hlen : tt.length = n) (hidx : idx < n) (hget : tt[idx]? = some a)
+    (hA : A = (kA : Rat) * secPerDay + todS P a)
+    (h : PassOutcome E tt n idx a A G (E.off w0) (A + lamServe E) m L' w') :
+    GoodPass E G L' w0 L' w' ∧ Ready E g G L' w' := by
+  have h' := h
+  obtain ⟨h4, h5, h9, hov, h1, hglo, wr, hnow, hoff, hoffm, hc⟩ := h
+  have hnr : L'.v6 ≠ none := by
+    rcases hc with ⟨_, c6, _⟩ | ⟨_, c6, _⟩ | ⟨_, _, c3, c4, _⟩
+    · rw [c6]; simp
+    · rw [c6]; simp
+    · exfalso; rw [hJ0] at hoffm; unfold lamServe at hlam c4; linarith
+  refine ⟨⟨idx, a, A, m, by rw [h4, h5]; exact h', hnr⟩, h1, hov, ?_⟩
+  by_cases h2 : L'.v2 = true
+  · exact Or.inl h2
+  · have h2' : L'.v2 = false := by simpa using h2
+    obtain ⟨a', kA', hy, hk', _, _, _, K⟩ :=
+      served_next E tt n idx a A G g (E.off w0) (A + lamServe E) m L' w' hlen hidx hget ok kA hA h' h2' hnr
+    refine Or.inr (Or.inr ⟨by rw [h4]; exact ok, by rw [h4, h5]; exact hlen, (idx + 1) % n, a', _, kA',
+      by rw [h5]; exact Nat.mod_lt _ (by omega), hk', ?_⟩)
+    rw [h4, h5]
+    apply K.mono
+    have := ok.gap_lo idx (by omega)
+    rw [hJ0]; unfold lamServe; linarith
+
+/-- **the service guarantee for every number of passes** (no clock jumps: `J = 0`): from any state between two
+    passes, each of the next `N` passes is a `GoodPass`, and no awaited sleep is longer than `G` -/
+theorem all_passes_good (E : TimedEnv P) (g G : Rat) (hJ0 : E.J = 0) (hlam : lamServe E ≤ ttError)
+    (hg : E.L + E.C ≤ g) (hG : G < secPerDay / 2)
+    (htt : ∀ w, TTok P (P.sortedUnion P.set24 (P.alarmKeys w)) g G)
+    (hbis : ∀ tt q, BisectOk P tt q) (N : Nat) :
+    ∀ (L : MtLocals T DT) (w : σ), Ready E g G L w → allPasses E G (GoodPass E G) N L w := by
+  have herr : ttError = 5 / 2 := rfl
+  have hd : secPerDay = (86400 : Rat) := rfl
+  have hL := E.hL
+  have hW := E.hW
+  have hC := E.hC
+  have hwin : 2 * E.L + E.W + E.C + 8 * E.J < secPerDay / 2 := by
+    unfold lamServe at hlam; rw [hJ0, hd]; linarith
+  induction N with
+  | zero => intro L w _; trivial
+  | succ N ih =>
+    intro L w ⟨h1, hov, hc⟩
+    unfold allPasses
+    -- a pass with an unknown index, from locals `L0` that agree with what `mtStep` starts from
+    have resync : ∀ L0 : MtLocals T DT, mtStep P L w = mtStep P L0 w → L0.v1 = false → L0.v2 = false →
+        L0.v6 = none → TTok P L0.v4 g G → L0.v4.length = L0.v5 → ttOk ≤ L0.v0 →
+        wp E G (fun L' w' => GoodPass E G L w L' w' ∧ allPasses E G (GoodPass E G) N L' w') (mtStep P L w) := by
+      intro L0 e g1 g2 g6 gok glen gov
+      obtain ⟨idx, a, A, kA, hidx, hget, hA, _, _, hw⟩ :=
+        pass_resync E G L0.v4 L0.v5 g G L0 w (le_refl _) g1 g2 g6 rfl rfl glen gov gok (hbis _ _) hG hwin
+      rw [e]
+      refine wp_mono E G _ _ ?_ _ hw
+      intro L' w' ho
+      have e2 : A + 2 * E.L + E.W + E.C = A + lamServe E := by unfold lamServe; ring
+      rw [e2] at ho
+      have ⟨gp, rd⟩ := ready_of_outcome E g G L0.v4 L0.v5 idx a A 8 kA w L' w' hJ0 hlam hg gok glen hidx hget hA ho
+      exact ⟨gp, ih L' w' rd⟩
+    rcases hc with h2 | ⟨h2, h6, ok, hlen⟩ | ⟨ok, hlen, i, a, A, kA, hi, hA, K⟩
+    · exact resync _ (head_reload L w h2) h1 rfl rfl (htt w) rfl hov
+    · exact resync L rfl h1 h2 h6 ok hlen hov
+    · have hw := pass_known E G L.v4 L.v5 i a A G (E.L + E.W + E.C) (A + lamServe E) L w (le_refl _) K kA hA hG
+        (by unfold lamServe; linarith) (by unfold lamServe; linarith)
+        (by unfold lamServe at hlam ⊢; rw [hJ0, hd]; linarith)
+      refine wp_mono E G _ _ ?_ _ hw
+      intro L' w' ho
+      have ⟨gp, rd⟩ := ready_of_outcome E g G L.v4 L.v5 i a A 7 kA w L' w' hJ0 hlam hg ok hlen hi K.hget hA ho
+      exact ⟨gp, ih L' w' rd⟩
+
 end timing
 end Edzed.Cron
